@@ -69,6 +69,7 @@ package plugin
 //@   modifies conn.$out
 
 //@ func openClientConnection(name, protocol) (cc, err)
+//@   modifies $execs
 //@   call execabs.Command#1 requires testOnlyPluginPath == "" ==> (arg0 == cat("age-plugin-", name) && !containsrune47(name))      [C17]
 //@   ensures#ok err == nil ==> cc != nil && cc.Writer != nil && cc.Reader != nil && cc.cmd != nil                                  [C16 C17]
 //@   ensures#nil err != nil ==> cc == nil                                                                                          [C14 C16 C17]
@@ -154,3 +155,14 @@ package plugin
 //@   ensures#keyonce err == nil ==> !isnil(fileKey) && calls("writeStanza", 4) == old(calls("writeStanza", 4)) + 1                 [C16]
 //@   ensures#nil err != nil ==> fileKey == nil                                                                                    [C14 C16]
 //@   ensures#oneexec $execs <= old($execs) + 1                                                                                    [C17]
+
+// the deferred error wrappers must keep the cause inspectable (errors.Is):
+// this is what lets Decrypt go on to other identities on ErrIncorrectIdentity
+//@ func (*Identity).Unwrap$1()
+//@   call fmt.Errorf#1 requires arg0 == "%s plugin: %w" && len(arg1) == 2                                    [C16]
+//@   ensures#wraps old(err) != nil ==> wraps(err, old(err)) && (forall j in 0..1 :: wraps(old(err), age.ErrIncorrectIdentity) ==> wraps(err, age.ErrIncorrectIdentity))   [C16]
+//@   ensures#nil old(err) == nil <==> err == nil                                                             [C16]
+
+//@ func (*Recipient).WrapWithLabels$1()
+//@   call fmt.Errorf#1 requires arg0 == "%s plugin: %w" && len(arg1) == 2                                    [C16]
+//@   ensures#nil old(err) == nil <==> err == nil                                                             [C16]
